@@ -483,7 +483,15 @@ pub fn prefilter_lists(rg: &mut StdRng, which: usize) -> Pats {
     let mut word = |rg: &mut StdRng, lo: usize, hi: usize| -> Vec<u8> {
         (0..rg.gen_range(lo..=hi)).map(|_| letters[rg.gen_range(0..letters.len())]).collect()
     };
-    match which % 9 {
+    match which % 10 {
+        // two distinct LETTERS as first bytes (four start bytes once both cases count: one more than a
+        // start-byte prefilter can hold), few patterns
+        9 => {
+            let l1 = letters[rg.gen_range(0..13)];
+            let l2 = letters[13 + rg.gen_range(0..13)];
+            let n = rg.gen_range(2..=5);
+            (0..n).map(|i| { let mut w = vec![if i % 2 == 0 { l1 } else { l2 }]; w.extend(word(rg, 1, 4)); w }).collect()
+        }
         // exactly two distinct first bytes, one a letter and one not (three start bytes once both
         // cases count), length >= 2, few patterns: where a case-insensitive searcher sits right at the
         // thresholds between the byte prefilters and the packed one
@@ -1201,12 +1209,12 @@ pub fn run(out_prefix: &str, shards: usize, family: &str, seed: u64, scale: usiz
             // contexts 2k: random lists; contexts 2k+1: built to carry a prefilter - every variant
             // of prefilter_lists under every match kind (packed/Teddy exists for the leftmost
             // kinds only and needs spans longer than a vector; shorter spans go to Rabin-Karp)
-            let npre = 9 * f.mks.len() * scale;
+            let npre = 10 * f.mks.len() * scale;
             for i in 0..(2 * npre.max(15 * scale)) {
                 if i % 2 == 0 && i / 2 >= 15 * scale { continue; }
                 if i % 2 == 1 && i / 2 >= npre { continue; }
                 let pats = if i % 2 == 0 { gen::random_pats(&mut rg, 6, 6) } else { prefilter_lists(&mut rg, i / 2) };
-                let mk = if i % 2 == 1 { f.mks[(i / 2 / 9) % f.mks.len()] } else { f.mks[rg.gen_range(0..f.mks.len())] };
+                let mk = if i % 2 == 1 { f.mks[(i / 2 / 10) % f.mks.len()] } else { f.mks[rg.gen_range(0..f.mks.len())] };
                 let mut c = Ctx::new(&pats, mk, REPRS_ALL[i % REPRS_ALL.len()]);
                 c.ci = i % 2 == 0 && rg.gen_range(0..3) == 0;
                 c.pre = i % 2 == 1 || rg.gen_bool(0.7);
@@ -1319,7 +1327,7 @@ pub fn run(out_prefix: &str, shards: usize, family: &str, seed: u64, scale: usiz
             // case-insensitive searchers whose prefilter is a rare-byte / start-byte
             // prefilter over letters written in either case
             for i in 0..(18 * scale) {
-                let pats: Pats = prefilter_lists(&mut rg, [2usize, 8, 3, 5, 1, 8][i % 6])
+                let pats: Pats = prefilter_lists(&mut rg, [2usize, 8, 3, 9, 1, 8, 5, 9][i % 8])
                     .into_iter()
                     .map(|p| p.iter().map(|&b| if rg.gen_bool(0.3) && b.is_ascii_lowercase() { b.to_ascii_uppercase() } else { b }).collect())
                     .collect();
@@ -1375,10 +1383,17 @@ pub fn run(out_prefix: &str, shards: usize, family: &str, seed: u64, scale: usiz
             for i in 0..(42 * scale) {
                 let pats = prefilter_lists(&mut rg, i);
                 let mk = f.mks[rg.gen_range(0..f.mks.len())];
-                let ci = i % 7 == 5 || (i % 7 != 6 && rg.gen_range(0..5) == 0);
+                let ci = i % 10 == 5 || i % 10 == 9 || (i % 10 == 8 && i % 20 == 8) || (i % 10 != 6 && rg.gen_range(0..5) == 0);
                 let mut hays: Vec<Vec<u8>> =
                     (0..8).map(|_| gen::random_hay(&mut rg, &pats, ci, maxhay)).collect();
                 hays.extend(gen::stale_hays(&mut rg, &pats, 2));
+                if ci {
+                    // every occurrence in the other case as a whole
+                    for k in 0..3.min(hays.len()) {
+                        let mut u = hays[k].clone(); u.make_ascii_uppercase(); hays.push(u);
+                        let mut l = hays[k].clone(); l.make_ascii_lowercase(); hays.push(l);
+                    }
+                }
                 let spans: Vec<(usize, usize)> =
                     hays.iter().map(|h| gen::random_span(&mut rg, h.len())).collect();
                 // low-level with prefilter: probes + searches
